@@ -93,7 +93,11 @@ noerr:
 		case err = <-db.compErrSetC:
 			switch {
 			case err == nil:
-			case err == ErrReadOnly, errors.IsCorrupted(err):
+			case err == ErrReadOnly:
+				// SetReadOnly acquired the write lock for us.
+				db.compWriteLocking = true
+				goto hasperr
+			case errors.IsCorrupted(err):
 				goto hasperr
 			default:
 				goto haserr
@@ -111,7 +115,11 @@ haserr:
 			switch {
 			case err == nil:
 				goto noerr
-			case err == ErrReadOnly, errors.IsCorrupted(err):
+			case err == ErrReadOnly:
+				// SetReadOnly acquired the write lock for us.
+				db.compWriteLocking = true
+				goto hasperr
+			case errors.IsCorrupted(err):
 				goto hasperr
 			default:
 			}
